@@ -1818,7 +1818,7 @@ Proof.
     destruct (inflight a1); [reflexivity|discriminate]. }
   cbn [acc_run acc_step] in H. rewrite Hi1 in H. cbn [map] in H.
   set (a2 := mkAcc (Some (canon k) :: base a1) [(u, (k, true))]
-                   (map (fun qa => (fst qa, Some (canon k) :: snd qa)) (open a1))) in *.
+                   (map (fun qa => (fst qa, Some (canon k) :: snd qa)) (open a1)) [Some (canon k)] true) in *.
   change (t2 ++ ERet u true :: t3 ++ EStart q :: t4 ++ EFrame q x :: t5)
     with (t2 ++ [ERet u true] ++ (t3 ++ EStart q :: t4 ++ EFrame q x :: t5)) in H.
   rewrite app_assoc, acc_run_app in H.
@@ -1827,7 +1827,7 @@ Proof.
   rewrite acc_run_app in H. destruct (acc_run a3 t3) as [a4|] eqn:R3; [|discriminate].
   destruct (quiet_run t3 a3 a4 H3 Hi3 R3) as [Hb4 Hi4].
   cbn [acc_run acc_step] in H.
-  set (a5 := mkAcc (base a4) (inflight a4) ((q, base a4) :: open a4)) in *.
+  set (a5 := mkAcc (base a4) (inflight a4) ((q, base a4) :: open a4) (group a4) (gok a4)) in *.
   rewrite acc_run_app in H. destruct (acc_run a5 t4) as [a6|] eqn:R4; [|discriminate].
   assert (Hl : lookup_q q (open a6) = Some [Some (canon k)]).
   { apply (open_run t4 q a5 a6 _ H4 Hq); [|exact R4]. subst a5. cbn [open lookup_q].
